@@ -236,7 +236,7 @@ func posDist(a, b float64) float64 {
 	if d >= 0 {
 		return d
 	}
-	return d + 2*pi
+	return (b + pi) - (a - pi) // no cancellation for a ≈ π, b ≈ −π
 }
 
 // circDist is the distance between two normalised points on the circle.
